@@ -82,6 +82,8 @@ class P:
                 self.eat()
                 e = ("cast", e, self.eat())
                 continue
+            if op in ("/", "%", "+", "-", "*") and self.peek(1) == "=":
+                break               # compound assignment, handled by the statement parser
             if op in self.BIN and self.BIN[op] >= minp:
                 p = self.BIN[op]
                 self.eat()
@@ -338,6 +340,12 @@ class P:
                 self.eat("}")
             return ("if", c, a, b)
         e = self.expr()
+        if self.peek() in ("/", "%", "+", "-", "*") and self.peek(1) == "=":
+            op = self.eat()
+            self.eat("=")
+            r = self.expr()
+            self.eat(";")
+            return ("assign", e, ("bin", op, e, r))
         if self.peek() == "=":
             self.eat()
             r = self.expr()
@@ -514,6 +522,8 @@ class Gen:
                     return g, f"({a} - {b})", "Duration"       # saturating
                 return g + [f"{b} ≤ {a}"], f"({a} - {b})", ty
             if op in ("/", "%"):
+                if re.fullmatch(r"\d+", b) and int(b) > 0:
+                    return g, f"({a} {op} {b})", ty      # a non-zero literal divisor cannot panic
                 return g + [f"0 < {b}"], f"({a} {op} {b})", ty
             raise Fail(f"operator {op}")
         if k == "call":
@@ -568,6 +578,8 @@ class Gen:
                 return g + ga + [f"{a} ∈ {t}"], f"({t}.idxOf {a})", "usize"
             if m == "load" and len(args) == 1:
                 return self.expr(recv, env)
+            if m == "as_secs" and not args and recv == ("field", ("var", "self"), "0") and "self.0.as_secs" in env:
+                return [], env["self.0.as_secs"][0], env["self.0.as_secs"][1]
             if m == "as_nanos" and not args:
                 g, t, ty = self.expr(recv, env)
                 if ty != "Duration":
@@ -590,6 +602,8 @@ class Gen:
             if m == "into" and not args:
                 return self.expr(recv, env)
             raise Fail(f"method {m} outside the translated subset")
+        if k == "macro" and e[1] == "write" and len(e[2]) == 2 and e[2][1][0] == "str":
+            return [], self.fmt_pieces(e[2][1][1][1:-1], env), "fmt"
         if k == "match":
             gs, s, ty = self.expr(e[1], env)
             arms = e[2]
@@ -615,6 +629,8 @@ class Gen:
         return f"{ind}if ({' ∧ '.join(guards)}) then\n{body}\n{ind}else none"
 
     def ret(self, val, env, ind):
+        if self.out_fields is None:
+            return f"{ind}{val}"
         st = ", ".join(f"{f} := {env[k][0]}" for k, f in self.out_fields)
         return f"{ind}some ({val}, {{ {st} }})"
 
@@ -813,6 +829,36 @@ class Gen:
             return self.guard(g, f"{ind}(match {t} with\n{ind}  | some {pat[1]} =>\n{ta}\n{ind}  | none =>\n{tb})", ind)
         raise Fail(f"statement {k} outside the translated subset")
 
+    def fmt_pieces(self, f, env):
+        """a Rust format string with inline integer arguments -> Lean list of `FmtPiece`"""
+        out, i, lit = [], 0, ""
+        def flush():
+            nonlocal lit
+            if lit:
+                out.append(".lit [" + ", ".join("'" + (c if c not in "'\\" else "\\" + c) + "'" for c in lit) + "]")
+                lit = ""
+        while i < len(f):
+            c = f[i]
+            if c == "{" and f[i + 1:i + 2] == "{":
+                lit += "{"; i += 2; continue
+            if c == "}" and f[i + 1:i + 2] == "}":
+                lit += "}"; i += 2; continue
+            if c == "{":
+                j = f.index("}", i)
+                m = re.fullmatch(r"(\w+)(?::(0?)(\d+))?", f[i + 1:j])
+                if not m or m.group(1) not in env or self.width(env[m.group(1)][1]) is None or (m.group(3) and m.group(2) != "0"):
+                    raise Fail(f"format argument {f[i:j+1]!r} outside the translated subset")
+                flush()
+                out.append(f".num {env[m.group(1)][0]} {m.group(3) or 0}")
+                i = j + 1
+                continue
+            if c == "\\":
+                raise Fail("escape in a format string")
+            lit += c
+            i += 1
+        flush()
+        return "[" + ", ".join(out) + "]"
+
     def is_vec(self, e, env):
         try:
             key = self.lhs_key(e)
@@ -821,6 +867,8 @@ class Gen:
         return key in env and isinstance(env[key][1], tuple) and env[key][1][0] == "vec"
 
     def lhs_key(self, e):
+        if e[0] == "var":
+            return e[1]
         if e[0] == "field" and e[1] == ("var", "self"):
             return "self." + e[2]
         if e[0] == "field" and e[1][0] == "field" and e[1][1] == ("var", "self"):
@@ -943,6 +991,60 @@ def main():
     lf = [("self.state.len", "len", "Option<u64>")]
     for fn in ("set_length", "unset_length", "inc_length", "dec_length"):
         o.append(translate_fn(stt, "BarState", fn, "LenState", lf, None, {}, ignore=("update_estimate_and_draw",)))
+    # ---- format.rs: duration constants, UNITS, FormattedDuration
+    fm = open(os.path.join(repo, "src/format.rs")).read()
+    o.append("/-- a piece of formatted text: literal characters, or an unsigned integer in decimal, zero-padded to `pad` digits -/\n"
+             "inductive FmtPiece where\n  | lit (cs : List Char)\n  | num (v : Nat) (pad : Nat)\nderiving Repr, DecidableEq\n")
+    dur = {}
+    for name in ("SECOND", "MINUTE", "HOUR", "DAY", "WEEK", "YEAR"):
+        m = re.search(r"const\s+" + name + r"\s*:\s*Duration\s*=\s*Duration::from_secs\(([^)]*)\)\s*;", fm)
+        if not m:
+            raise Fail(f"const {name}: Duration::from_secs(..) not found")
+        g0 = Gen("const", [], {}, set())
+        gs, t, _ = g0.expr(P(lex(m.group(1))).expr(), {})
+        # integer literals without a suffix are plain naturals here: no overflow guard is generated (gs is empty)
+        o.append(f"/-- `{name}` of src/format.rs, in seconds -/\ndef dur{name.capitalize()}Secs : Nat := {t}\n")
+        dur[name] = f"dur{name.capitalize()}Secs"
+    m = re.search(r"const\s+UNITS\s*:[^=]*=\s*&\[(.*?)\];", fm, flags=re.S)
+    if not m:
+        raise Fail("const UNITS not found")
+    rows = re.findall(r"\(\s*(\w+)\s*,\s*\"(\w+)\"\s*,\s*\"(\w+)\"\s*\)", m.group(1))
+    if not rows or any(r[0] not in dur for r in rows) or len(rows) != m.group(1).count("("):
+        raise Fail("UNITS: rows not understood")
+    o.append("/-- `UNITS` of src/format.rs: (unit in seconds, name, short name), in table order -/\ndef units : List (Nat × String × String) :=\n  ["
+             + ", ".join(f'({dur[a]}, "{b}", "{c}")' for a, b, c in rows) + "]\n")
+    params, ret, body = find_fn(fm, r"fmt::Display\s+for\s+FormattedDuration", "fmt")
+    g1 = Gen("FormattedDuration", [], {}, set())
+    g1.out_fields = None
+    code = g1.block(P(lex(body)).stmts(), {"self.0.as_secs": ("secs", "u64"), "f": ("f", "fmt")}, "  ",
+                    lambda e2, i2: (_ for _ in ()).throw(Fail("FormattedDuration::fmt: control reaches the end")))
+    o.append("/-- `<FormattedDuration as Display>::fmt`: the text written, as pieces; `secs` is `self.0.as_secs()` -/\n"
+             "def formattedDuration (secs : Nat) : List FmtPiece :=\n" + code + "\n")
+    # ---- defaults of state.rs / style.rs
+    ty, v = const_value(stt, "DEFAULT_TAB_WIDTH")
+    o.append(f"/-- `DEFAULT_TAB_WIDTH: {ty}` of src/state.rs -/\ndef defaultTabWidth : Nat := {v}\n")
+    sty = open(os.path.join(repo, "src/style.rs")).read()
+    params, ret, body = find_fn(sty, "ProgressStyle", "new")
+    m1 = re.search(r'let\s+progress_chars\s*=\s*segment\("([^"\\]*)"\)', body)
+    m2 = re.search(r'tick_strings\s*:\s*"([^"\\]*)"\s*\.chars\(\)', body)
+    m3 = re.search(r"tab_width\s*:\s*DEFAULT_TAB_WIDTH", body)
+    if not (m1 and m2 and m3):
+        raise Fail("ProgressStyle::new: default progress characters / tick strings / tab width not found")
+    o.append("/-- code points of the default progress characters (`ProgressStyle::new`) -/\ndef defaultProgressChars : List Nat := ["
+             + ", ".join(str(ord(c)) for c in m1.group(1)) + "]\n")
+    o.append("/-- code points of the default tick characters (`ProgressStyle::new`), one tick string each -/\ndef defaultTickChars : List Nat := ["
+             + ", ".join(str(ord(c)) for c in m2.group(1)) + "]\n")
+    for fn, nm in (("default_bar", "defaultBarTemplate"), ("default_spinner", "defaultSpinnerTemplate")):
+        params, ret, body = find_fn(sty, "ProgressStyle", fn)
+        m = re.search(r'Template::from_str\("([^"\\]*)"\)', body)
+        if not m:
+            raise Fail(f"ProgressStyle::{fn}: template literal not found")
+        o.append(f"/-- the template of `ProgressStyle::{fn}` (code points) -/\ndef {nm} : List Nat := [" + ", ".join(str(ord(c)) for c in m.group(1)) + "]\n")
+    m = re.search(r"const\s+EXPONENTIAL_WEIGHTING_SECONDS\s*:\s*f64\s*=\s*(\d+)\.0\s*;\s*(\d+)\.(\d+)_f64\.powf\(age\s*/\s*EXPONENTIAL_WEIGHTING_SECONDS\)", stt)
+    if not m:
+        raise Fail("estimator_weight: `BASE.powf(age / EXPONENTIAL_WEIGHTING_SECONDS)` not found")
+    o.append(f"/-- `estimator_weight(age) = base ^ (age / seconds)`: `seconds`, and `base` as numerator / denominator -/\n"
+             f"def estimatorWeightSeconds : Nat := {m.group(1)}\ndef estimatorWeightBase : Nat × Nat := ({int(m.group(2) + m.group(3))}, {10 ** len(m.group(3))})\n")
     # ---- MultiState: slot bookkeeping (members / free_set / ordering)
     mu = open(os.path.join(repo, "src/multi.rs")).read()
     ms = dict(find_struct(mu, "MultiState"))
